@@ -57,7 +57,7 @@ pub fn gen_case(rng: &mut Rng) -> Value {
            "allow_log": rng.chance(1, 2), "add_ids": rng.chance(1, 2), "chunks": chunks, "perms": perms})
 }
 
-fn rule_json(r: &Value) -> Value {
+pub fn rule_json(r: &Value) -> Value {
     json!({
         "id": r["id"], "rank": r["rank"], "status_code": r["status"], "target": r["target"],
         "source": {"path": "/x", "response_status_codes": r["codes"], "exclude_response_status_codes": r["excl"], "sampling": r["sampling"]},
